@@ -118,6 +118,24 @@ func (ec *evalCtx) specCall(call *ast.CallExpr) Value {
 	case "trimLeft", "trimRight", "trimmed":
 		need(1)
 		return App(map[string]string{"trimLeft": "trim.left", "trimRight": "trim.right", "trimmed": "strings.TrimSpace"}[name], SStr, scalar(arg(0)))
+	case "pos3":
+		need(3)
+		return &StructV{Names: []string{"Index", "Line", "Col"}, F: map[string]Value{"Index": arg(0), "Line": arg(1), "Col": arg(2)}}
+	case "partOffset":
+		// partOffset(s, sep, j): byte offset of part j of Split(s, sep) within s:
+		//   off(0) = 0, off(j+1) = off(j) + len(part j) + len(sep); off(j) + len(part j) <= len(s)
+		need(3)
+		s, sep, j := scalar(arg(0)), scalar(arg(1)), scalar(arg(2))
+		off := func(k *Term) *Term { return App("split.off", SInt, s, sep, k) }
+		part := func(k *Term) *Term { return App("split.at", SStr, s, sep, k) }
+		ln := App("split.len", SInt, s, sep)
+		ec.st.Assume(Eq(off(Int(0)), Int(0)))
+		prev := Sub(j, Int(1))
+		ec.st.Assume(Implies(Gt(j, Int(0)), Eq(off(j), Add(Add(off(prev), StrLen(part(prev))), StrLen(sep)))))
+		ec.st.Assume(Implies(And(Le(Int(0), j), Lt(j, ln)), And(Le(Int(0), off(j)), Le(Add(off(j), StrLen(part(j))), StrLen(s)),
+			Eq(Substr(s, off(j), Add(off(j), StrLen(part(j)))), part(j)))))
+		ec.e().trusted["std:strings.Split (offsets of the parts within the string: off(j+1) = off(j) + len(part j) + len(sep))"] = true
+		return off(j)
 	case "splitJoin":
 		// splitJoin(s, sep, L): assumed fact about strings.Split: if every part of Split(s, sep) is in L
 		// then s is in L (sep L)*   [s == Join(parts, sep)]
